@@ -42,7 +42,12 @@ claim("C08",
       "trusted: TLC; covers use contiguous vertex ids and cover every vertex",
       T_TLC, "DESIGN.md 4 C08")
 
+claim("C09",
+      "TLC model-checks the greedy loop of get_EECC (maximal cliques, m0-subset decomposition, overlap scores with the stale-score semantics of the code, tie sets) for EVERY graph without isolated vertices on <= 5 (thorough: 6) vertices, every m0 and every tie-break: cliques within bound, edge-disjointness in every state, exact cover and empty working graph at termination, isolated maximal cliques intact, never stuck, termination under fairness; the pinned tuple de-duplication is a deviation that must break disjointness. The real code is run through every tie-break sequence (RNG tree of random.choice) on the same graphs plus G(n,p), overlapping K5/K6 unions and the repo fixture; TLC judges the returned cover and, step by step, that every picked clique is one of the spec's Candidates with the recorded tie-set size",
+      "trusted: TLC; graphs built from edges; tie-breaks via random.choice of the global instance; a 60-120 s watchdog stands for non-termination",
+      T_TLC, "DESIGN.md 4 C09")
+
 _pending = "no check built yet in this round; planned (DESIGN.md 4)"
-for p in ["C09","C10","C11","C12","C13","C14","C15","C16","C17","C18"]:
+for p in ["C10","C11","C12","C13","C14","C15","C16","C17","C18"]:
     NOT_APPLICABLE[p] = _pending
 NOT_APPLICABLE["C19"] = "numerical accuracy of four stateless real-valued functions (exp, zeta, polylog): no state, no transitions, TLC has neither reals nor transcendental functions (DESIGN.md 5)"
